@@ -79,8 +79,8 @@ Record iso_case := mkIsoCase {
   ic_built : result (lmodel Z);
   ic_rhs : list (list (lname * Q) * option (list Q))
 }.
-Definition check_iso (ext_bit : bool) (ik : init_name_kind) (c : iso_case) : bool :=
-  let mine := build_iso ext_bit ik (ic_lv c) (ic_maps c) (ic_init c) (ic_base c) in
+Definition check_iso (ext_bit : bool) (rk : repl_kind) (ik : init_name_kind) (c : iso_case) : bool :=
+  let mine := build_iso ext_bit rk ik (ic_lv c) (ic_maps c) (ic_init c) (ic_base c) in
   result_eqb (lmodel_eqb Z.eqb) mine (ic_built c)
   && match mine with
      | Ok m => forallb (fun sr => optQs_eqb (rhs_exec inject_Z m (fst sr)) (snd sr)) (ic_rhs c)
